@@ -458,3 +458,180 @@ amp!(o18_1_untracked_disconnect, false, 4);
 //@bound address A pending; a sync frame; an ack frame (this one: sync)
 //@assume as o18_1_untracked_syn
 amp!(o18_1_pending_sync, true, 7);
+
+// ---- C08: per-address event grammar, one operation from any lifecycle state ---------------------
+
+fn any_frame() -> frame::Frame {
+    let k: u8 = kani::any();
+    kani::assume(k < 9);
+    match k {
+        0 => frame::Frame::HandshakeSynFrame(frame::HandshakeSynFrame { version: kani::any(), nonce: kani::any(), max_receive_rate: kani::any(), max_packet_size: kani::any(), max_receive_alloc: kani::any() }),
+        1 => frame::Frame::HandshakeSynAckFrame(frame::HandshakeSynAckFrame { nonce_ack: kani::any(), nonce: kani::any(), max_receive_rate: kani::any(), max_packet_size: kani::any(), max_receive_alloc: kani::any() }),
+        2 => frame::Frame::HandshakeAckFrame(frame::HandshakeAckFrame { nonce_ack: kani::any() }),
+        3 => frame::Frame::HandshakeErrorFrame(frame::HandshakeErrorFrame { nonce_ack: kani::any(), error: frame::HandshakeErrorType::ServerFull }),
+        4 => frame::Frame::DisconnectFrame(frame::DisconnectFrame {}),
+        5 => frame::Frame::DisconnectAckFrame(frame::DisconnectAckFrame {}),
+        6 => frame::Frame::DataFrame(frame::DataFrame { sequence_id: kani::any(), nonce: kani::any(), datagrams: Vec::new() }),
+        7 => frame::Frame::SyncFrame(frame::SyncFrame { next_frame_id: if kani::any() { Some(kani::any()) } else { None }, next_packet_id: if kani::any() { Some(kani::any()) } else { None } }),
+        _ => frame::Frame::AckFrame(frame::AckFrame { frame_window_base_id: kani::any(), packet_window_base_id: kani::any(), frame_acks: Vec::new() }),
+    }
+}
+
+// Tracked entry for address A in the given lifecycle class, with the timer entry / active-list entry the code
+// itself creates for that state (fields any).
+fn track(s: &mut Server, class: u8) -> Rc<RefCell<remote_client::RemoteClient>> {
+    let state = match class {
+        1 => remote_client::State::Pending(remote_client::PendingState { local_nonce: kani::any(), remote_nonce: kani::any(), remote_max_receive_rate: kani::any(),
+                                                                          remote_max_receive_alloc: kani::any(), reply_bytes: Box::new([1u8; 25]) }),
+        2 => {
+            let sig: u8 = kani::any();
+            kani::assume(sig < 3);
+            let disconnect_signal = if sig == 0 { None } else if sig == 1 { Some(remote_client::DisconnectMode::Now) } else { Some(remote_client::DisconnectMode::Flush) };
+            remote_client::State::Active(remote_client::ActiveState { half_connection: oq::HalfConnection::model(), timeout_time_ms: any_time(), disconnect_signal })
+        }
+        3 => remote_client::State::Closing,
+        _ => remote_client::State::Closed,
+    };
+    let rc = Rc::new(RefCell::new(remote_client::RemoteClient { address: addr(A), state, max_packet_size: 1000 }));
+    s.clients.insert(addr(A), Rc::clone(&rc));
+    let count: u8 = kani::any();
+    kani::assume(count <= 10);
+    match class {
+        1 => s.client_events.push(event_queue::Event::new(Rc::clone(&rc), event_queue::EventType::ResendHandshakeSynAck, any_time(), count)),
+        2 => s.active_clients.push(Rc::clone(&rc)),
+        3 => { s.active_clients.push(Rc::clone(&rc)); s.client_events.push(event_queue::Event::new(Rc::clone(&rc), event_queue::EventType::ResendDisconnect, any_time(), count)) }
+        _ => s.client_events.push(event_queue::Event::new(Rc::clone(&rc), event_queue::EventType::ClosedTimeout, any_time(), 0)),
+    }
+    rc
+}
+
+struct Ev { n: usize, connect: usize, receive: usize, disconnect: usize, error: usize, other_addr: usize, last_is_terminal: bool, receive_after_terminal: bool }
+fn summarise(s: &Server) -> Ev {
+    let mut e = Ev { n: 0, connect: 0, receive: 0, disconnect: 0, error: 0, other_addr: 0, last_is_terminal: false, receive_after_terminal: false };
+    let mut i = 0;
+    let mut terminal_seen = false;
+    while i < s.events_out.len() {
+        let (a, kind) = match s.events_out[i] { Event::Connect(a) => (a, 0), Event::Receive(a, _) => (a, 1), Event::Disconnect(a) => (a, 2), Event::Error(a, _) => (a, 3) };
+        if a.port() != A { e.other_addr += 1; } else {
+            e.n += 1;
+            match kind { 0 => e.connect += 1, 1 => { e.receive += 1; if terminal_seen { e.receive_after_terminal = true; } } 2 => { e.disconnect += 1; terminal_seen = true; } _ => { e.error += 1; terminal_seen = true; } }
+            e.last_is_terminal = kind >= 2;
+        }
+        i += 1;
+    }
+    e
+}
+
+fn server_grammar_step(class: u8) {
+    let cfg = EndpointConfig::default();
+    let mut s = mk_server(4, 4, cfg);
+    let rc = track(&mut s, class);
+    let op: u8 = kani::any();
+    kani::assume(op < 7);
+    let now = any_time();
+    match op {
+        0 => s.handle_frame(addr(A), any_frame(), now),
+        1 => s.handle_events(now),
+        2 => s.step_active_clients(now),
+        3 => rc.borrow_mut().disconnect(),
+        4 => rc.borrow_mut().disconnect_now(),
+        5 => rc.borrow_mut().send(Box::new([1u8]), 0, crate::SendMode::Reliable),
+        _ => s.drop(&addr(A)),
+    }
+    let c1 = class_of(&s, A);
+    let e = summarise(&s);
+    assert!(e.other_addr == 0, "[C08] no event for an address that was not involved");
+    if op == 6 { assert!(e.n == 0 && c1 == 0, "[C08] drop() ends the connection silently"); }
+    match class {
+        1 => {
+            assert!(e.receive == 0 && e.disconnect == 0, "[C08] no Receive or Disconnect before Connect");
+            assert!(e.n <= 1);
+            if e.connect == 1 { assert!(c1 == 2, "[C08] Connect means established"); }
+            if e.error == 1 { assert!(c1 == 0, "[C08] nothing can follow an Error"); }
+            if e.n == 0 { assert!(c1 == 1 || c1 == 0); }
+        }
+        2 => {
+            assert!(e.connect == 0, "[C08] no second Connect on an established connection");
+            assert!(e.disconnect + e.error <= 1 && !e.receive_after_terminal, "[C08] at most one terminal event, and nothing after it");
+            if e.disconnect + e.error == 1 { assert!(e.last_is_terminal && (c1 == 4 || c1 == 0), "[C08] a terminal event ends the connection"); }
+            else { assert!(c1 == 2 || c1 == 3 || (op == 6 && c1 == 0), "[C08] without a terminal event the connection stays established or closing"); }
+        }
+        3 => {
+            assert!(e.connect == 0 && e.receive == 0, "[C08] no Connect/Receive while closing");
+            assert!(e.n <= 1);
+            if e.n == 1 { assert!(c1 == 4 || c1 == 0, "[C08] a terminal event ends the connection"); } else { assert!(c1 == 3 || (op == 6 && c1 == 0)); }
+        }
+        _ => {
+            assert!(e.n == 0, "[C08] nothing is reported after the terminal event");
+            assert!(c1 == 4 || c1 == 0);
+        }
+    }
+    kani::cover!(class == 2 && e.receive == 1 && e.disconnect == 1, "Receive then Disconnect in one operation");
+    kani::cover!(class != 2 || e.error == 1, "active timeout");
+    kani::cover!(class != 3 || e.disconnect == 1, "closing ends with Disconnect");
+    kani::cover!(class != 1 || e.connect == 1, "pending becomes established");
+    std::mem::forget(rc);
+    std::mem::forget(s);
+}
+
+macro_rules! sgram { ($name:ident, $class:expr) => {
+    #[kani::proof]
+    #[kani::unwind(6)]
+    #[kani::stub(crate::frame::serial::crc::compute, crate::frame::serial::verif_codec::crc_stub)]
+    fn $name() { server_grammar_step($class); }
+} }
+
+//@h props=C08,C03,C09 tier=quick timeout=1500 role=server-event-grammar args=--no-memory-safety-checks
+//@fn Server::{handle_frame and all frame handlers, handle_events, handle_event, step_active_clients, drop}, RemoteClient::{send, disconnect, disconnect_now}
+//@bound ONE operation on a server tracking address A in state Pending (fields any, its SYN-ACK resend timer at any time with any count <= 10): any frame of the nine types (fields any) from A at any time, a timer evaluation at any time, step_active_clients, an application call, or drop()
+//@assume VecMap for HashMap; opaque connection model (receive() delivers 0..1 packets); socket model; nonce source any; crc::compute stubbed; pointer checks off (lifecycle logic only)
+sgram!(o8_2_server_event_grammar_pending, 1);
+//@h props=C08,C03,C09 tier=quick timeout=1500 role=server-event-grammar args=--no-memory-safety-checks
+//@fn Server::{handle_frame and all frame handlers, handle_events, handle_event, step_active_clients, drop}, RemoteClient::{send, disconnect, disconnect_now}
+//@bound as o8_2_server_event_grammar_pending from state Active (timeout time any, disconnect signal any, connection model answers anything)
+//@assume as o8_2_server_event_grammar_pending
+sgram!(o8_2_server_event_grammar_active, 2);
+//@h props=C08,C03,C09 tier=quick timeout=1500 role=server-event-grammar args=--no-memory-safety-checks
+//@fn Server::{handle_frame and all frame handlers, handle_events, handle_event, step_active_clients, drop}, RemoteClient::{send, disconnect, disconnect_now}
+//@bound as o8_2_server_event_grammar_pending from state Closing (its Disconnect resend timer at any time with any count <= 10)
+//@assume as o8_2_server_event_grammar_pending
+sgram!(o8_2_server_event_grammar_closing, 3);
+//@h props=C08,C03 tier=quick timeout=1500 role=server-event-grammar args=--no-memory-safety-checks
+//@fn Server::{handle_frame and all frame handlers, handle_events, handle_event, step_active_clients, drop}, RemoteClient::{send, disconnect, disconnect_now}
+//@bound as o8_2_server_event_grammar_pending from state Closed (its forget timer at any time)
+//@assume as o8_2_server_event_grammar_pending
+sgram!(o8_2_server_event_grammar_closed, 4);
+
+// ---- the real step(): frames waiting in the socket are read before the timers are evaluated (C10) -------
+
+//@h props=C10,C08 tier=quick timeout=1500 role=server-real-step args=--no-memory-safety-checks
+//@fn Server::{step, flush_active_clients, handle_frames, handle_frame, handle_sync, handle_events, step_active_clients}, Frame::read
+//@bound server tracking address A in state Active (deadline any, default config); ONE sync frame (14 bytes, no ids) from A waiting in the socket; clock reading any < 2^40 -- in particular at or past the deadline; one call of the real step()
+//@assume clock behind now_ms() = a value set by the obligation; socket model with one queued datagram; VecMap; opaque connection model; crc::compute stubbed; pointer checks off
+#[kani::proof]
+#[kani::unwind(6)]
+#[kani::stub(crate::frame::serial::crc::compute, crate::frame::serial::verif_codec::crc_stub)]
+fn o10_4_server_step_reads_waiting_frames_before_timers() {
+    unsafe { crate::frame::serial::verif_codec::CRC_STUB_VALUE = 0; }
+    let cfg = EndpointConfig::default();
+    let mut s = mk_server(4, 4, cfg.clone());
+    let deadline = any_time();
+    let rc = Rc::new(RefCell::new(remote_client::RemoteClient { address: addr(A), max_packet_size: 1000,
+        state: remote_client::State::Active(remote_client::ActiveState { half_connection: oq::HalfConnection::model(), timeout_time_ms: deadline, disconnect_signal: None }) }));
+    s.clients.insert(addr(A), Rc::clone(&rc));
+    s.active_clients.push(Rc::clone(&rc));
+    s.socket.queue_rx(&[11u8, 0, 0, 0, 0, 0, 0, 0, 0, 0, 0, 0, 0, 0], A);
+    let now = any_time();
+    unsafe { env::CLOCK_MS = now; }
+    let events = s.step();
+    std::mem::forget(events);
+    assert!(oq::count(oq::SYNC) == 1, "the waiting frame reached the connection");
+    assert!(class_of(&s, A) == 2, "[C10] a connection whose peer's frame was waiting in the socket is not reported as timed out");
+    match rc.borrow().state {
+        remote_client::State::Active(ref st) => assert!(st.timeout_time_ms == now + cfg.active_timeout_ms, "[C10] a received frame restarts the timeout"),
+        _ => panic!("not active"),
+    }
+    kani::cover!(now >= deadline, "the deadline had passed when step() was called");
+    std::mem::forget(rc);
+    std::mem::forget(s);
+}
